@@ -2,7 +2,9 @@ package main
 
 import (
 	"fmt"
+	"go/constant"
 	"go/token"
+	"go/types"
 	"strings"
 
 	"golang.org/x/tools/go/ssa"
@@ -75,88 +77,96 @@ type errEval struct {
 	failed string
 }
 
-// evalTranslate walks translateSyscallError for the shape: returns (code, ok).
+// evalTranslate runs translateSyscallError on a concrete value of the shape with the SSA interpreter and returns
+// (code, ok): it does not matter whether the errno table is a function of its own, a switch inside
+// translateSyscallError or a map.
 func (e *errEval) evalTranslate(s errShape) (int64, bool) {
 	fn := e.p.Func("translateSyscallError")
 	if fn == nil {
 		e.failed = "translateSyscallError not found"
 		return 0, false
 	}
-	b := fn.Blocks[0]
-	for steps := 0; steps < 64; steps++ {
-		last := b.Instrs[len(b.Instrs)-1]
-		switch x := last.(type) {
-		case *ssa.Return:
-			okc, isC := x.Results[1].(*ssa.Const)
-			if !isC {
-				e.failed = "translateSyscallError returns a non-constant ok"
-				return 0, false
-			}
-			if okc.Value.String() != "true" {
-				return 0, false
-			}
-			// code = translateErrno(which errno?)
-			for _, l := range leavesOf(x.Results[0]) {
-				if l.Kind == leafCallResult && calleeName(l.Call) == "translateErrno" {
-					which := s.Errno
-					for _, l2 := range leavesOf(l.Call.Args[0]) {
-						if l2.Kind == leafFieldLoad && l2.Field == "Err" {
-							which = s.Inner
-						}
-					}
-					if v, ok := e.errno[which]; ok {
-						return v, true
-					}
-					return e.errno["default"], true
-				}
-				if k, ok := constInt(l.V); ok {
-					return k, true
-				}
-			}
-			e.failed = "translateSyscallError returns a code the evaluator does not understand"
-			return 0, false
-		case *ssa.If:
-			// condition: extract #1 of a typeassert
-			ex, ok := x.Cond.(*ssa.Extract)
-			if !ok {
-				e.failed = "translateSyscallError branches on something other than a type assertion"
-				return 0, false
-			}
-			ta, ok := ex.Tuple.(*ssa.TypeAssert)
-			if !ok {
-				e.failed = "translateSyscallError branches on something other than a type assertion"
-				return 0, false
-			}
-			want := typeName(ta.AssertedType)
-			have := s.Outer
-			inner := false
-			for _, l := range leavesOf(ta.X) {
-				if l.Kind == leafFieldLoad && l.Field == "Err" {
-					inner = true
-				}
-			}
-			if inner {
-				switch s.Inner {
-				case "ENOENT", "EACCES", "EPERM", "EIO":
-					have = "Errno"
-				default:
-					have = s.Inner
-				}
-			}
-			if have == want {
-				b = b.Succs[0]
-			} else {
-				b = b.Succs[1]
-			}
-		case *ssa.Jump:
-			b = b.Succs[0]
-		default:
-			e.failed = "translateSyscallError has a shape the evaluator does not understand"
-			return 0, false
-		}
+	arg, why := e.p.errValueOf(s)
+	if why != "" {
+		e.failed = why
+		return 0, false
 	}
-	e.failed = "translateSyscallError evaluation did not terminate"
-	return 0, false
+	ev := newEvaluator(e.p)
+	st := ev.run(fn, []evVal{arg}, 0)
+	if st.kind != "return" || len(st.vals) != 2 {
+		e.failed = "translateSyscallError could not be evaluated for " + s.Name + ": " + st.kind + " " + st.why
+		return 0, false
+	}
+	okv := st.vals[1]
+	if okv.k != evConst || okv.c.Kind() != constant.Bool {
+		e.failed = "translateSyscallError returns an ok the evaluator does not know for " + s.Name
+		return 0, false
+	}
+	if !constant.BoolVal(okv.c) {
+		return 0, false
+	}
+	cv := st.vals[0]
+	if cv.k != evConst || cv.c.Kind() != constant.Int {
+		e.failed = "translateSyscallError returns a code the evaluator does not know for " + s.Name
+		return 0, false
+	}
+	k, _ := constant.Int64Val(cv.c)
+	return k, true
+}
+
+// errValueOf builds the interpreter's value for an error shape, as far as translateSyscallError can tell shapes apart
+// (it looks at dynamic types and at errno values only).
+func (p *Program) errValueOf(s errShape) (evVal, string) {
+	sys := p.SSA.ImportedPackage("syscall")
+	osp := p.SSA.ImportedPackage("os")
+	if sys == nil || osp == nil {
+		return evVal{}, "packages syscall and os are not loaded"
+	}
+	errnoT := sys.Pkg.Scope().Lookup("Errno")
+	if errnoT == nil {
+		// plan9: ErrorString
+		return evVal{}, "syscall.Errno does not exist in this configuration"
+	}
+	opaqueT := types.NewNamed(types.NewTypeName(token.NoPos, nil, "opaqueError", nil), types.NewStruct(nil, nil), nil)
+	opaque := evVal{k: evIface, t: types.NewPointer(opaqueT), inner: &evVal{k: evObject, obj: &evObj{typ: opaqueT, fields: map[string]evVal{}}}}
+	errno := func(name string) (evVal, string) {
+		var k constant.Value
+		if name == "0" {
+			k = constant.MakeInt64(0)
+		} else {
+			c, _ := sys.Pkg.Scope().Lookup(name).(*types.Const)
+			if c == nil {
+				return evVal{}, "syscall." + name + " is not a constant in this configuration"
+			}
+			k = c.Val()
+		}
+		return evVal{k: evIface, t: errnoT.Type(), inner: &evVal{k: evConst, c: k, t: errnoT.Type()}}, ""
+	}
+	inner := func(n string) (evVal, string) {
+		switch n {
+		case "ENOENT", "EACCES", "EPERM", "EIO", "0":
+			return errno(n)
+		}
+		return opaque, ""
+	}
+	switch s.Outer {
+	case "nil":
+		return evVal{k: evNil}, ""
+	case "Errno":
+		return errno(s.Errno)
+	case "PathError", "LinkError", "SyscallError":
+		tn := osp.Pkg.Scope().Lookup(s.Outer)
+		if tn == nil {
+			return evVal{}, "os." + s.Outer + " not found"
+		}
+		in, why := inner(s.Inner)
+		if why != "" {
+			return evVal{}, why
+		}
+		obj := &evObj{typ: tn.Type(), fields: map[string]evVal{"Err": in}}
+		return evVal{k: evIface, t: types.NewPointer(tn.Type()), inner: &evVal{k: evObject, obj: obj}}, ""
+	}
+	return opaque, ""
 }
 
 // evalStatus walks statusFromError for the shape and returns the status code.
